@@ -201,7 +201,7 @@ func runC10(c *core.Ctx, b core.Batch) {
 		nb = 4
 	}
 	types = shard(types, b.N, nb)
-	per := c.Scale(40, 500)
+	per := c.Scale(40, 240)
 	for ti, mt := range types {
 		name := string(mt.Descriptor().FullName())
 		for k := 0; k < per; k++ {
@@ -219,6 +219,9 @@ func runC10(c *core.Ctx, b core.Batch) {
 					lim := len(sites)
 					if c.Quick() && lim > 6 {
 						lim = 6
+					}
+					if lim > 16 {
+						lim = 16 // every check walks the whole tree through seven entry points: bound the thorough tier too
 					}
 					for _, si := range r.Perm(len(sites))[:lim] {
 						m2 := newOf(mt, dyn)
